@@ -223,7 +223,9 @@ func runC06(c *core.Ctx) error {
 		}
 		return fmt.Sprintf("SPECIFICATION Spec\nCONSTANTS\n  N = %d\n  MaxRoot = %d\n  MaxOther = %d\n  Ring = %s\n  ModesUsed = %s\n  FatTypes = %d\n  RootForms = %s\nINVARIANTS Theorem FixIsFixpoint NoRefsAreFinite NullableRootsAreFinite Emit\nCHECK_DEADLOCK FALSE\n", n, mr, mo, r, modes, fat, forms)
 	}
-	mkx := func(n, mr, mo int, ring bool, modes string, fat int) string { return mkf(n, mr, mo, ring, modes, fat, `{"object"}`) }
+	mkx := func(n, mr, mo int, ring bool, modes string, fat int) string {
+		return mkf(n, mr, mo, ring, modes, fat, `{"object"}`)
+	}
 	allForms := `{"object", "nullable-object", "alias", "nullable-alias"}`
 	mk := func(n, mr, mo int, ring bool) string { return mkx(n, mr, mo, ring, allModes, 0) }
 	// 4 types, requirement edges only (plain references and choices), one non-root type as large as the root:
